@@ -314,3 +314,72 @@ Fixpoint has_dup_keys (fuel : nat) (v : jv) : bool :=
          end) ms
   | _ => false
   end end.
+
+(* ---------- reference get on arbitrary bytes (the decision procedure of C14's WfPrefix):
+   walk the path through the text, requiring everything traversed before the target to be
+   well-formed; nothing is required of the bytes after the returned value ---------- *)
+Fixpoint skip_elems (i : nat) (pos : nat) (l : list N) : option (nat * list N) :=   (* after '[' *)
+  match i with
+  | O => Some (pos, l)
+  | S j =>
+    match pvalue false (fuel_for l) pos l with
+    | None => None
+    | Some (_, _, b, rest) =>
+      let r1 := ws rest in
+      match r1 with
+      | 44 :: r2 => skip_elems j (S (b + (length rest - length r1)))%nat r2
+      | _ => None
+      end
+    end
+  end.
+
+Fixpoint find_member (fuel : nat) (k : list N) (pos : nat) (l : list N) : option (nat * list N) :=   (* after '{' or ',' *)
+  match fuel with O => None | S f =>
+  let l1 := ws l in
+  let p1 := (pos + (length l - length l1))%nat in
+  match l1 with
+  | 34 :: r =>
+    match str_body true (S (length r)) r with
+    | None => None
+    | Some (key, _, rest) =>
+      let pk := (p1 + (length l1 - length rest))%nat in
+      let r1 := ws rest in
+      let pc := (pk + (length rest - length r1))%nat in
+      match r1 with
+      | 58 :: r2 =>
+        if bytes_eqb key k then Some (S pc, r2)
+        else
+          match pvalue false (fuel_for r2) (S pc) r2 with
+          | None => None
+          | Some (_, _, b, r3) =>
+            let r4 := ws r3 in
+            match r4 with
+            | 44 :: r5 => find_member f k (S (b + (length r3 - length r4)))%nat r5
+            | _ => None
+            end
+          end
+      | _ => None
+      end
+    end
+  | _ => None
+  end end.
+
+Fixpoint ref_get_at (p : list pelem) (pos : nat) (l : list N) : option (nat * nat) :=
+  match p with
+  | [] => match pvalue false (fuel_for l) pos l with Some (_, a, b, _) => Some (a, b) | None => None end
+  | PIdx i :: p' =>
+    let l1 := ws l in
+    let p1 := (pos + (length l - length l1))%nat in
+    match l1 with
+    | 91 :: r => match skip_elems i (S p1) r with Some (p2, r2) => ref_get_at p' p2 r2 | None => None end
+    | _ => None
+    end
+  | PKey k :: p' =>
+    let l1 := ws l in
+    let p1 := (pos + (length l - length l1))%nat in
+    match l1 with
+    | 123 :: r => match find_member (S (length r)) k (S p1) r with Some (p2, r2) => ref_get_at p' p2 r2 | None => None end
+    | _ => None
+    end
+  end.
+Definition ref_get (l : list N) (p : list pelem) : option (nat * nat) := ref_get_at p 0 l.
